@@ -7,7 +7,7 @@ structure ApiExtra where
   specOn : Bool := true
   prevWs : List (Bool × List Nat) := []
   implRec : Array (Nat × Int) := #[]        -- the implementation's recorder view (state, color)
-  specRec : List (Nat × Nat × Int) := []    -- last-writer fold of the implementation's reports
+  specRec : Array (Nat × Int) := #[]        -- last-writer fold of the implementation's reports
   recordReads : Bool := false
   deriving Inhabited
 
@@ -63,6 +63,32 @@ def c11Check (cfg : Config) (pc : Nat) (mem : List (Nat × Instr)) (oldQ newQ : 
     | some q => some s!"successor {q} of the task at {pc}: distance {circDist M q pc} > {R / 2}"
     | none => none
 
+/-- one reference step on a large core (tag `bigstep`): the whole-API reference is too slow
+    there, so the step is compared directly: core cell for cell (linear time), queue element for
+    element -/
+def bigStepCheck (s : Sim) (o : Obs) : Option String :=
+  match s.warriors[0]? with
+  | none => none
+  | some w =>
+    match w.absQueue with
+    | [] => none
+    | pc :: rest =>
+      let M := s.m.toNat
+      let R := s.readLimit.toNat
+      let W := s.writeLimit.toNat
+      if R > M || W > M then none else
+      let before := s.absCore
+      let r := Spec.step M R W before pc
+      let actual := o.mem.foldl (fun (c : Spec.Core) (a, cell) => c.set a cell.abs) before
+      if actual != r.core then
+        let bad := ((List.range M).zip (actual.zip r.core)).find? (fun (_, (x, y)) => x != y)
+        some s!"core after the step differs from the reference step at {bad.map (·.1)}: got {bad.map (fun b => showSCell b.2.1)} reference {bad.map (fun b => showSCell b.2.2)}"
+      else
+        let wantQ := Spec.enqueue s.maxProcs.toNat rest r.succ
+        match o.ws[0]? with
+        | some (_, q) => if q != wantQ then some s!"queue {q} != reference {wantQ}" else none
+        | none => some "no warrior in the observation"
+
 def parseRet (s : String) : String := s.trimAscii.toString
 
 structure Ctx where
@@ -108,11 +134,7 @@ def Ctx.observe (c : Ctx) (s : Sim) (obsStr : String) (evs : List Spec.Ev) : Ctx
     let specRec := o.reps.foldl (recFold M lenOf c.ex.recordReads) c.ex.specRec
     let hadReset := o.reps.any (·.typ == .simReset)
     let implRec := o.rec_.foldl (fun (a : Array (Nat × Int)) (ad, s, co) => a.setIfInBounds ad (s, co)) c.ex.implRec
-    let badRec := (List.range M).find? (fun a =>
-      let want := match specRec.find? (·.1 == a) with
-        | some (_, s, co) => (s, co)
-        | none => (0, (-1 : Int))
-      implRec.getD a (0, -1) != want)
+    let badRec := (List.range M).find? (fun a => implRec.getD a (0, -1) != specRec.getD a (0, -1))
     let c := match badRec with
       | some a => c.fail "PROP" s!"C15 recorder at {a}: {repr (implRec.getD a (0, -1))} != last-writer fold (reset seen: {hadReset})"
       | none => c
@@ -168,7 +190,7 @@ def Ctx.step (c : Ctx) (line : String) : Ctx :=
       length := u64 l, distance := u64 d }
     let sim := Sim.new cfg
     let M := cfg.coreSize.toNat
-    let specOn := M ≤ 300
+    let specOn := M ≤ 300 && cfg.readLimit.toNat ≤ M && cfg.writeLimit.toNat ≤ M
     let spec0 := Spec.Api.new M cfg.readLimit.toNat cfg.writeLimit.toNat cfg.processes.toNat cfg.cycles.toNat
     let st : CaseState := {
         id, tag, cfg, sim, spec := spec0,
@@ -176,7 +198,7 @@ def Ctx.step (c : Ctx) (line : String) : Ctx :=
         prevMem := Array.replicate M default, prevColor := Array.replicate M (-1),
         prevState := Array.replicate M .empty,
         specPrev := if specOn then List.replicate M default else [] }
-    let c : Ctx := { st, ex := { specOn, implRec := Array.replicate M (0, -1), recordReads := rr == "1" } }
+    let c : Ctx := { st, ex := { specOn, implRec := Array.replicate M (0, -1), specRec := Array.replicate M (0, -1), recordReads := rr == "1" } }
     let want := if sim.isSome then "ok" else "err"
     let c := if resp != want then c.fail "CORR" s!"NewSimulator: model {want} impl {resp}" else c
     -- C04: creation either fails with an error or succeeds; never panics
@@ -223,6 +245,13 @@ def Ctx.step (c : Ctx) (line : String) : Ctx :=
       c.observe s' obs []
   | ["R"] | ["r"] =>
     let quiet := toks == ["r"]
+    let c := if c.st.tag == "bigstep" && !quiet then
+        match parseObs obs with
+        | some o => match bigStepCheck s o with
+          | some m => c.fail "PROP" s!"SPEC {m}"
+          | none => c
+        | none => c
+      else c
     match s.runCycle with
     | .error p =>
       let c := if resp != "panic:" ++ showPanic p then c.fail "CORR" s!"RunCycle: model panic {showPanic p} impl {resp}" else c
